@@ -559,7 +559,62 @@ theorem mfi_promote_size_lt (hT : legalThreshold T = true) (m1 : OMap r) (c : Ct
     · rw [promote_id d root ty cnt seed c hh (by rw [hc]; simp)]
       exact Nat.lt_of_le_of_lt h.2.2.1 (mfi_bound hT (d + 1))
 
+theorem mfi_rootFlag_true : ∀ (d : Nat) (t : MTree r d), MTreeInv T D d true t → mds_rootFlag d t = true
+  | 0, _, h => ((mtreeInv_zero_iff T D _ _).mp h).root_eq
+  | _ + 1, _, h => ((mtreeInv_succ_iff T D _ _ _).mp h).1.1
+
+theorem mfi_inl_root (m : OMap r) (h : m.isInlined = false) : treeInl m.d m.root = false := by
+  obtain ⟨d, root, ty, cnt, seed⟩ := m
+  rw [← isInlined_eq d root ty cnt seed]; exact h
+
+theorem mfi_root_id_mem (d : Nat) (t : MTree r d) : (MTree.hdr d t).id ∈ md_ids d t := by
+  cases d with
+  | zero => exact List.mem_singleton.mpr rfl
+  | succ d => exact List.mem_cons_self
+
 end
+
+/-! ### Part D: the final assembly for `Set` -/
+
+/-- **`OrderedMap.Set` OVER THE HEAP, WITH THE GENERATED RESTRUCTURING CODE (`rsOf cfg.T`)**: given ONLY the three tail
+    facts about `rsOf` (`hS`, `hM`, `hR`), for a map satisfying `MapInv` whose tree the heap holds, the generated
+    `OrderedMap.set` returns `(old value, nil, md_map m' s')` for the model's `OMap.set cfg m k v s.ctx = .ok (old, m', c')`
+    with `s'.ctx = c'`, the handle invariant over the heap re-established (`mds_RootPreR (MQR ..)`) and the heap changed as
+    `mds_Delta` says; a model error comes back as that error value.
+    Remaining hypotheses: the element layer (`ElemsSpec`, `P` of the leaves), the `uint64` range of the digests
+    (the model's digests are unbounded naturals), and the heap / identifier facts (`MHolds`, `Nodup`, owner address,
+    `mds_FreshFree`). -/
+theorem Ob_OrderedMap_Set_heap_full_of_three (cfg : MCfg) (D : DigestFn (r + 1)) (k : MKey) (v : Elem)
+    (P : DG r → Prop) (eb : DEnvB r)
+    (hLT : legalThreshold cfg.T = true) (hL : cfg.L = r + 1) (hk : KeyOk cfg.T (r + 1) D k) (hv : ValueOkM v)
+    (hhk : k.dig 0 < 2^64) (hE : ElemsSpec cfg k v P eb)
+    (hS : MSplitTail cfg.T (rsOf (r := r) cfg.T) (MQ cfg.T D)) (hM : MMorTail cfg.T (rsOf (r := r) cfg.T) (MQ cfg.T D))
+    (hR : MRootTailR cfg.T (rsOf (r := r) cfg.T) (MQR cfg.T D))
+    (m : OMap r) (hinv : MapInv cfg.T D m) (hdig : ∀ x ∈ MTree.digests0 m.d m.root, x < 2^64)
+    (hPl : ∀ sl ∈ MTree.leaves m.d m.root, P sl.elems)
+    (s : MHSt r) (x0 : Option DX) (depth : Nat) (hd : m.d ≤ depth)
+    (hheld : MHolds s.heap m.d m.root x0) (hnd : (md_ids m.d m.root).Nodup)
+    (haddr : ∀ id ∈ md_ids m.d m.root, id.addr = cfg.addr) (hff : mds_FreshFree cfg.addr s) :
+    match OMap.set cfg m k v s.ctx with
+    | .ok (old, m', c') =>
+      ∃ s' x', OrderedMap_set (envD cfg.T eb (rsOf cfg.T)) depth (md_map m s) (.key k) (.val v) =
+          some (old.map .val, none, md_map m' s') ∧
+        s'.ctx = c' ∧ s'.popped = s.popped ∧ mds_RootPreR (MQR cfg.T D) cfg.addr s' m' x' ∧
+        mds_Delta s.heap s'.heap (md_ids m.d m.root) (md_ids m'.d m'.root)
+    | .error e =>
+      ∃ M', OrderedMap_set (envD cfg.T eb (rsOf cfg.T)) depth (md_map m s) (.key k) (.val v) = some (none, some e, M') := by
+  have hc : CfgFor cfg cfg.T (r + 1) := ⟨rfl, hL⟩
+  have hb := map_legal_bounds hLT
+  have hT1 : maxThr cfg.T < 2^32 := by rw [map_maxThr_eq]; omega
+  have hT2 : minThr cfg.T < 2^32 := by simp only [minThr]; omega
+  exact Ob_OrderedMap_set_heap_of_tails' eb (rsOf cfg.T) (MQ cfg.T D) (MQR cfg.T D) (mfi_Qin cfg.T D) cfg k v P
+    (mfi_L cfg.T D) hE hS hM hR (mfi_Qin_MQ hLT) (mfi_set_MQ hLT hc hk hv hhk) mfi_QRhdrs
+    (fun sl c ks old sl' c' hl hq => mfi_mono hLT hc hk hv sl c ks old sl' c' hl hq) hT1 hT2 hhk m s x0 depth hd hheld
+    hnd haddr hff (mfi_rootFlag_true m.d m.root hinv.tree)
+    (mfi_path hLT hc hk hv hhk P m.d true m.root s.ctx hinv.tree hdig
+      (haddr _ (mfi_root_id_mem m.d m.root)) (mfi_inl_root m hinv.standalone) hPl)
+    (fun ks old root' c1 hq => mfi_QRset hLT hc hk hv hhk m hinv hdig s.ctx ks old root' c1 hq)
+    (fun ks old root' c1 hq => mfi_promote_size_lt hLT _ c1 (mfi_QRset hLT hc hk hv hhk m hinv hdig s.ctx ks old root' c1 hq))
 
 end
 
